@@ -131,6 +131,20 @@ pub fn documents(tier: Tier) -> Vec<(String, bool, bool)> {
             }
         }
     }
+    // lints that cover many tokens: two over-long sentences that differ in exactly one word, at
+    // every position of the sentence (a context digest that samples the flagged text instead of
+    // reading all of it cannot tell them apart)
+    let words: Vec<&str> = "we walked along the river past an old mill and over a stone bridge while our friends carried bread cheese apples water maps blankets lanterns ropes and two small tents toward that quiet green valley where nobody had camped before this long summer".split(' ').collect();
+    for p in 0..words.len() {
+        let mut other = words.clone();
+        other[p] = if p == 0 { "they" } else { "yellow" };
+        let cap = |w: &[&str]| {
+            let mut s = w.join(" ");
+            s[..1].make_ascii_uppercase();
+            s
+        };
+        v.push((format!("Note. {}. Note. {}. Note.", cap(&words), cap(&other)), false, p % 6 != 0));
+    }
     v
 }
 
